@@ -28,7 +28,8 @@ RULE = ("cases = interleaved histories of construct/run operations of 2..4 DDLPa
         "schedules: 2 threads x yield points {start, after lexer build, after parser build, before each statement} - ALL interleavings "
         "for scripts of <= 3 statements, seeded samples for 3-4 threads; (3) free-running stress, 8-16 threads, "
         "sys.setswitchinterval(1e-6); (4, thorough) line-level sleep(0) injection in parser.py / ddl_parser.py through sys.monitoring. "
-        "Non-trivial = a history with >= 2 live objects; distinct = distinct schedule (operation order / yield-point trace).")
+        "Non-trivial = a history with >= 2 live objects; distinct = distinct schedule (operation order / yield-point trace)."
+        " Added after seeded defects: twin specs (same text, different silent / normalize_names / debug / input.regex), a spec that alters a table only another spec defines.")
 ASSUMPTIONS = ["schedules are enumerated at statement granularity; finer interleavings are only sampled (free-running and line-level injection)",
                "CPython with the GIL (no claim about free-threaded builds)"]
 MIN_EVENTS = {"run_return": 200}
